@@ -52,6 +52,9 @@ def companion_column(name, n):
         return ("g", "CAT", [f"id{i}" for i in range(n)])
     if name == "allnan_cat":
         return ("g", "CAT", [np.nan] * n)
+    if name in ("two_ids", "three_ids"):
+        k = 2 if name == "two_ids" else 3
+        return [(f"g{j}", "CAT", [f"id{j}_{(i * (j + 3)) % n}" for i in range(n)]) for j in range(k)]
     if name == "ok_qnt":
         return ("g", "QNT", [float(i % 2) for i in range(n)])
     if name == "ok_cat":
@@ -72,8 +75,8 @@ def frames(case):
     col = pd.Series(xs, dtype=case.get("xdtype") or (float if kind == "QNT" else object))
     X = pd.DataFrame({"f": col})
     comp = companion_column(case.get("companion"), len(xs))
-    if comp is not None:
-        X[comp[0]] = pd.Series(comp[2], dtype=float if comp[1] == "QNT" else object)
+    for cname, ckind, cvals in comp if isinstance(comp, list) else ([comp] if comp is not None else []):
+        X[cname] = pd.Series(cvals, dtype=float if ckind == "QNT" else object)
     y = pd.Series(target_values(cells, nan, case.get("target", "binary")))
     return X, y, vals, comp
 
@@ -99,20 +102,21 @@ def build(case, vals, comp):
         vo["f"] = [v if isinstance(v, str) else space.str_form(v) for v in vals]
     else:
         quali.append("f")
-    if comp is not None:
-        (quanti if comp[1] == "QNT" else quali).append(comp[0])
+    for cname, ckind, _cv in comp if isinstance(comp, list) else ([comp] if comp is not None else []):
+        (quanti if ckind == "QNT" else quali).append(cname)
+    extra = dict(case.get("kw") or {})  # user-chosen sentinels (str_nan / str_default)
     if cls == "ContinuousDiscretizer":
-        return ContinuousDiscretizer(quanti, mf, copy=True)
+        return ContinuousDiscretizer(quanti, mf, copy=True, **{k: v for k, v in extra.items() if k == "str_nan"})
     if cls == "QuantitativeDiscretizer":
-        return QuantitativeDiscretizer(quanti, mf, copy=True)
+        return QuantitativeDiscretizer(quanti, mf, copy=True, **{k: v for k, v in extra.items() if k == "str_nan"})
     if cls == "OrdinalDiscretizer":
         return OrdinalDiscretizer(ordi, mf, values_orders=vo, copy=True)
     if cls == "CategoricalDiscretizer":
         return CategoricalDiscretizer(quali, mf, copy=True)
     if cls == "QualitativeDiscretizer":
-        return QualitativeDiscretizer(quali, mf, ordinal_features=ordi, values_orders=vo, copy=True)
+        return QualitativeDiscretizer(quali, mf, ordinal_features=ordi, values_orders=vo, copy=True, **extra)
     if cls == "Discretizer":
-        return Discretizer(quanti, quali, mf, ordinal_features=ordi, values_orders=vo, copy=True)
+        return Discretizer(quanti, quali, mf, ordinal_features=ordi, values_orders=vo, copy=True, **extra)
     kw = dict(
         min_freq=mf,
         quantitative_features=quanti,
@@ -123,6 +127,7 @@ def build(case, vals, comp):
         dropna=case.get("dropna", True),
         output_dtype=case.get("output_dtype", "float"),
         copy=True,
+        **extra,
     )
     if cls == "BinaryCarver":
         return BinaryCarver(sort_by="tschuprowt", **kw)
@@ -164,7 +169,14 @@ def valid_target(cells, nan, target):
     return len(set(ys)) > 2
 
 
-def enumerate_cases(tier, seed, classes="discretizers"):
+def enumerate_cases(tier, seed, classes="discretizers", custom_sentinels=False):
+    cases, transitions = _enumerate_cases(tier, seed, classes)
+    if not custom_sentinels:  # only C08's oracle is written against obj.str_nan / obj.str_default
+        cases = [c for c in cases if not c.get("kw")]
+    return cases, transitions
+
+
+def _enumerate_cases(tier, seed, classes="discretizers"):
     """returns (cases, transitions)"""
     alpha = SIGMA_D[tier]
     cases = []
@@ -217,6 +229,23 @@ def enumerate_cases(tier, seed, classes="discretizers"):
                     for mf in MIN_FREQS[tier][:2] if tier == "quick" else MIN_FREQS[tier]:
                         if valid_target(cells, None, "binary") and sum(map(sum, cells)) >= 2:
                             cases.append({"cls": "Discretizer", "kind": kind, "cells": [list(c) for c in cells], "nan": None, "min_freq": mf, "target": "binary", "seed": seed, "companion": compn})
+        # user-chosen sentinels: every sub-discretizer of the pipelines must receive them
+        KW = {"str_nan": "MISSING", "str_default": "OTHERS"}
+        for kind in ("QNT", "ORD", "CAT", "NUMCAT"):
+            tabs, tr = space.construct(list(alpha), 1, 3 if tier == "quick" else 4, ordered=(kind not in ("CAT", "NUMCAT")))
+            for cells in tabs[:: 2 if tier == "quick" else 1]:
+                for nan in (None, (0, 2), (2, 1)):
+                    for cls in [c for c in CLASSES_BY_KIND[kind] if c in ("Discretizer", "QuantitativeDiscretizer", "QualitativeDiscretizer")]:
+                        for mf in (0.34, 0.1):
+                            if valid_target(cells, nan, "binary") and sum(map(sum, cells)) + (sum(nan) if nan else 0) >= 2:
+                                cases.append({"cls": cls, "kind": kind, "cells": [list(c) for c in cells], "nan": list(nan) if nan else None, "min_freq": mf, "target": "binary", "seed": seed, "companion": None, "kw": KW})
+        # several id-like columns dropped together
+        for kind in ("QNT", "CAT"):
+            tabs, tr = space.construct(list(alpha), 2, 2, ordered=(kind != "CAT"))
+            for cells in tabs:
+                for compn in ("two_ids", "three_ids"):
+                    if valid_target(cells, None, "binary"):
+                        cases.append({"cls": "Discretizer", "kind": kind, "cells": [list(c) for c in cells], "nan": None, "min_freq": 0.34, "target": "binary", "seed": seed, "companion": compn})
     else:  # carvers
         kmax = {"quick": 3, "thorough": 4}[tier]
         mfs = {"quick": [0.34, 0.1], "thorough": [0.34, 0.25, 0.1, 0.05]}[tier]
@@ -244,10 +273,17 @@ def enumerate_cases(tier, seed, classes="discretizers"):
             # companions with carvers
             tabs2, _ = space.construct(list(alpha), 2, 2, ordered=(kind != "CAT"))
             for cells in tabs2:
-                for compn in ("const_qnt", "allnan_qnt", "distinct_cat", "ok_cat"):
+                for cls in CARVERS:  # user-chosen sentinels, with and without missing values
+                    for nan in (None, (0, 2), (2, 1)):
+                        target = target_for(cls)
+                        if valid_target(cells, nan, target):
+                            cases.append({"cls": cls, "kind": kind, "cells": [list(c) for c in cells], "nan": list(nan) if nan else None, "min_freq": mfs[-1], "target": target, "seed": seed, "companion": None, "kw": {"str_nan": "MISSING", "str_default": "OTHERS"}})
+                for compn in ("const_qnt", "allnan_qnt", "distinct_cat", "ok_cat", "two_ids", "three_ids"):
                     for cls in CARVERS:
                         target = target_for(cls)
                         if valid_target(cells, None, target):
-                            cases.append({"cls": cls, "kind": kind, "cells": [list(c) for c in cells], "nan": None, "min_freq": mfs[-1], "target": target, "seed": seed, "companion": compn})
+                            # id-like columns are dropped only when each value is rarer than min_freq
+                            mfc = 0.34 if compn in ("two_ids", "three_ids", "distinct_cat") else mfs[-1]
+                            cases.append({"cls": cls, "kind": kind, "cells": [list(c) for c in cells], "nan": None, "min_freq": mfc, "target": target, "seed": seed, "companion": compn})
     transitions += len(cases)
     return cases, transitions
